@@ -97,6 +97,13 @@ static void stdfill(int w, int h, vt::Rng& rng) {
     { std::vector<int> v(256, 5); gil::fill_histogram(gil::const_view(img), v, true); std::vector<std::pair<long long, long long>> c; for (size_t i = 0; i < v.size(); ++i) c.push_back({(long long)i, v[i] - 5}); dump("vector_accumulate", c); }
 }
 
+// every 16-bit value exactly once: the std::array filler must put value p into bin floor(p * (N - 1) / 65535)
+static void array_full16() {
+    gil::gray16_image_t img(256, 256); int i = 0; for (auto& p : gil::view(img)) p = gil::gray16_pixel_t((uint16_t)i++);
+    { static std::array<int, 65536> a; a.fill(0); gil::fill_histogram(gil::const_view(img), a); J("ArrFull").num("n", 65536).arr("counts", a).emit(); }
+    { std::array<int, 256> a{}; gil::fill_histogram(gil::const_view(img), a); J("ArrFull").num("n", 256).arr("counts", a).emit(); }
+    { std::array<int, 16> a{}; gil::fill_histogram(gil::const_view(img), a); J("ArrFull").num("n", 16).arr("counts", a).emit(); }
+}
 int main(int argc, char** argv) {
     vt::Args args(argc, argv); A = &args; vt::install_handlers(); vt::T().open(args.out.c_str());
     long idx = 0; auto mine = [&]() { return (idx++ % args.nshards) == args.shard; };
@@ -110,5 +117,6 @@ int main(int argc, char** argv) {
         if (mine()) vt::isolated([&] { fills<gil::rgba8_image_t, 3, 0, 1, 2>("rgba8", w, h, rng); fills<gil::rgb16s_image_t, 2, 1>("rgb16s", w, h, rng); });
         if (mine()) vt::isolated([&] { subs<gil::rgb8_image_t>("rgb8", w, h, rng); stdfill(w, h, rng); });
     }
+    if (mine()) vt::isolated([&] { array_full16(); }, 120);
     J("End").num("events", vt::T().events).emit(); vt::T().close(); return 0;
 }
